@@ -122,9 +122,11 @@ func (xmlNode *unmarshaledXML) unserializedChildren(path []string, sn schema.Nod
 			// We may validly have multiple list elements with the same
 			// name so no need to check ok.  For each element we create a
 			// List entry in <list>, with a single child for the listEntry.
-			v = &unmarshaledXML{c.XMLName, c.XMLAttr, "", make([]*unmarshaledXML, 0)}
-			fields[name] = v
-			list = append(list, v)
+			if !ok {
+				v = &unmarshaledXML{c.XMLName, c.XMLAttr, "", make([]*unmarshaledXML, 0)}
+				fields[name] = v
+				list = append(list, v)
+			}
 			v.Children = append(v.Children, c)
 		case schema.Leaf:
 			if ok {
@@ -134,6 +136,9 @@ func (xmlNode *unmarshaledXML) unserializedChildren(path []string, sn schema.Nod
 			}
 			c.convertPrefixedValue(cn)
 			fields[name] = c
+			list = append(list, c)
+		case schema.ListEntry:
+			// The entries of a list all carry the name of the list.
 			list = append(list, c)
 		default:
 			if ok {
